@@ -62,7 +62,7 @@ func VerifC12fHostConnect() {
 		ctx = network.WithAllowLimitedConn(ctx, "verif")
 	}
 	h := &BasicHost{network: nw}
-	err := h.Connect(ctx, peer.AddrInfo{ID: "peerA"})
+	err := h.Connect(ctx, peer.AddrInfo{ID: "peerA", Addrs: []ma.Multiaddr{ma.StringCast("/ip4/1.2.3.4/tcp/1")}})
 	vAssert(ps.added == 1, "the addresses given are recorded")
 	if forceDirect {
 		vCover("direct-connection-demanded")
